@@ -5,6 +5,10 @@ V = os.path.dirname(os.path.dirname(os.path.abspath(__file__)))
 
 CLAIMED = {
     # id: (technique, level text, level note, design ref)
+    "C01": ("table extraction and agreement over MIR: accepted-shape sets per carrier (both directions), fixed widths (array sizes / const generics / evaluated constants), sentinel constants, vector-codec arms, CqlValue encode/decode arm consistency, null-padding guards",
+            "Static, the tables that encoder and decoder must share, compared in full: for each carrier the serializer's and the type-checker's accepted column types agree and equal the documented set; for each fixed-width native the bytes written, the length demanded on read, the CQL v4 width and the vector codec's element size agree; -1/-2 sentinels and the invalid placeholder agree between CellWriter and read_value/read_bytes_opt; both sides of the vector codec branch on the same size function with consistent arms; each column shape that decodes to a CqlValue variant is accepted by the serializer and the typed decoder of that variant; short tuples/UDTs are null-padded by construction. Byte-exactness of individual values and equality after round trip are numerical and not decided.",
+            "Trusts rustc MIR; CQL v4 widths/sentinels and the documented type matrix transcribed by hand.",
+            "DESIGN.md §3 C01"),
     "C02": ("who-may-call / who-writes census on the stream-id structures, def-use provenance of registered ids and delivered frames, dominance and cut rules on lookup/orphan/reader, guard-across-await check on pre-lowering coroutine MIR",
             "Static, schedule-independent: a stream id is freed and leaves the orphanage only in ResponseHandlerMap::lookup (the response path); the id registered for a request is the one StreamIdSet::allocate returned; lookup tests the orphanage before touching handlers and forgets the request->stream mapping on delivery; orphan() is complete; the reader delivers the TaskResponse built from the frame it just read to the handler lookup returned and dies on an unsolicited id; no handler-map guard lives across an await; the orphan notifier is disabled only after the response is Ready. Interleavings as such and the bitmap arithmetic are not decided.",
             "Trusts rustc MIR and the role-based anchors (three private types of connection.rs); renaming them trips the fail-closed anchor check by design.",
